@@ -1,0 +1,10 @@
+//go:build !verif
+
+// Package verifhook provides scheduling points for verification harnesses.
+// Without the `verif` build tag every function is an empty inlinable no-op.
+package verifhook
+
+import "context"
+
+// Yield marks a point at which a verification scheduler may switch to another request.
+func Yield(ctx context.Context, point string) {}
